@@ -121,6 +121,13 @@ Definition compose_ok (facet_idx bnd edge_idx : list (list nat)) : bool :=
                                        existsb (fun es => same2 (compose fs b) es) edge_idx) bnd) facet_idx &&
   forallb (fun es => existsb (fun fs => existsb (fun b => same2 (compose fs b) es) bnd) facet_idx) edge_idx.
 
+(* slot-table side condition of the renumbering theorems: a slot lists pairwise distinct local vertices, or distinct local vertices
+   followed by a repetition of one of them (the padded triangles of the wedge) *)
+Fixpoint nodupb (l : list nat) : bool :=
+  match l with [] => true | x :: r => negb (existsb (Nat.eqb x) r) && nodupb r end.
+Definition slot_shape_ok (ix : list nat) : bool :=
+  nodupb ix || (nodupb (removelast ix) && existsb (Nat.eqb (last ix 0)) (removelast ix) && negb (length ix =? 0)).
+
 (* the whole family of tables of one mesh, as the correspondence compares them:
    facet_idx / edge_idx : refdom tables; bnd_idx : facets of the boundary refdom (for f2e); sortf : the sort flag *)
 Record tables := {
